@@ -19,12 +19,23 @@ def e2e_stage(ctx, n_cases):
     worst = 0.0
     for i in range(n_cases):
         n = ctx.rng.choice([2, 3, 4, 5, 6])
-        steps = ctx.rng.choice([2, 3])
+        # drive shapes: smooth random rows / all rows identical (constant pulse) / constant amplitude and phase with a
+        # detuning ramp (the sweep part of an adiabatic protocol) / constant detuning with an amplitude ramp
+        shape = ("random", "constant", "delta-ramp", "omega-ramp", "delta-ramp")[i % 5]
+        steps = ctx.rng.choice([2, 3]) if shape == "random" else ctx.rng.choice([3, 4, 5, 6])
         prob = D.random_problem(ctx.rng, n, steps, dt=100.0, local=(i % 2 == 0), phases=(i % 3 == 0))
         # gapped regime: strong detuning, moderate drive
         prob["delta"] = prob["delta"] * 0 + np.array([[ctx.rng.uniform(4, 9) * ctx.rng.choice([-1, 1])] * n] * steps)
         prob["omega"] = np.abs(prob["omega"]) + 1.0
-        et = [1.0]
+        if shape != "random":
+            for key in ("omega", "delta", "phi"):
+                prob[key] = np.repeat(prob[key][:1], steps, axis=0)
+            if shape == "delta-ramp":
+                d0, d1 = ctx.rng.uniform(4, 9) * ctx.rng.choice([-1, 1]), ctx.rng.uniform(4, 9) * ctx.rng.choice([-1, 1])
+                prob["delta"] = np.array([[d0 + (d1 - d0) * k / (steps - 1)] * n for k in range(steps)])
+            elif shape == "omega-ramp":
+                prob["omega"] = prob["omega"] * np.linspace(1.0, 2.5, steps)[:, None]
+        et = [(k + 1) / steps for k in range(steps)]
         with warnings.catch_warnings():
             warnings.simplefilter("ignore")
             # the documented spellings of the solver: the enum member, the plain string, and a config that went
@@ -43,22 +54,28 @@ def e2e_stage(ctx, n_cases):
                     ctx.notes.append(f"DMRG non-convergence reported by RuntimeError (allowed): n={n}")
                     continue
                 raise
-        H = D.dense_H(prob["omega"][-1], prob["delta"][-1], prob["phi"][-1], prob["U"])
-        w = np.linalg.eigvalsh(H)
-        e = float(res.get_result("energy", 1.0))
-        below = w[0] - e
-        gap = w[1] - w[0]
-        worst = max(worst, abs(e - w[0]))
-        case = {"kind": "e2e-dmrg", "n": n, "steps": steps, "E": e, "E0": float(w[0]), "gap": float(gap),
-                "solver_spelling": spelling}
-        ctx.count_case(case, nontrivial=True)
         ser = {k: (v.tolist() if hasattr(v, "tolist") else v) for k, v in prob.items()}
-        if below > 1e-8 * max(1.0, abs(w[0])):
-            ctx.violation(f"DMRG energy {e} is below the exact ground energy {w[0]}",
-                          {"case": ser, "finding_key": "dmrg-below-ground"})
-        elif gap > 0.5 and abs(e - w[0]) > E_TOL_FACTOR * 1e-5 * max(1.0, abs(w[0])):
-            ctx.violation(f"DMRG energy {e} differs from the ground energy {w[0]} of a gapped system (gap {gap:.3g})",
-                          {"case": ser, "finding_key": "dmrg-not-ground"})
+        case = {"kind": "e2e-dmrg", "n": n, "steps": steps, "shape": shape, "solver_spelling": spelling, "E": [], "E0": []}
+        for k in range(steps):
+            # the energy recorded at the end of step k is that of step k's Hamiltonian (fill_results precedes update_H)
+            H = D.dense_H(prob["omega"][k], prob["delta"][k], prob["phi"][k], prob["U"])
+            w = np.linalg.eigvalsh(H)
+            e = float(res.get_result("energy", et[k]))
+            below = w[0] - e
+            gap = w[1] - w[0]
+            worst = max(worst, abs(e - w[0]))
+            case["E"].append(e)
+            case["E0"].append(float(w[0]))
+            if below > 1e-8 * max(1.0, abs(w[0])):
+                ctx.violation(f"DMRG energy {e} at the end of step {k} is below the exact ground energy {w[0]}",
+                              {"case": ser, "shape": shape, "step": k, "finding_key": "dmrg-below-ground"})
+                break
+            elif gap > 0.5 and abs(e - w[0]) > E_TOL_FACTOR * 1e-5 * max(1.0, abs(w[0])):
+                ctx.violation(f"DMRG energy {e} at the end of step {k} differs from the ground energy {w[0]} of that "
+                              f"step's (gapped, gap {gap:.3g}) Hamiltonian; drive shape {shape}",
+                              {"case": ser, "shape": shape, "step": k, "finding_key": "dmrg-not-ground"})
+                break
+        ctx.count_case(case, nontrivial=True)
     ctx.extra["e2e_worst_energy_error"] = worst
 
 
@@ -66,7 +83,7 @@ def run(ctx):
     common.coq_make(["Model/MpsMachine.vo"])
     common.standard_proof_stage(ctx, "C09", ["Properties/C09.vo"])
     trace_stage(ctx, "DMRG", ctx.n(60, 1200), "C09trace")
-    e2e_stage(ctx, ctx.n(8, 120))
+    e2e_stage(ctx, ctx.n(10, 120))
     ctx.rule = ("(a) scripted DMRG stepping cases (N 2..9, 1-5 steps, energy oracle streams: converging / random / "
                 "flat, max_sweeps 1..2000, energy tolerances 1e-5..2): real DMRGBackendImpl with minimize_energy_pair "
                 "stubbed vs the Gallina machine, every event and attribute tuple; (b) end-to-end DMRG runs on gapped "
